@@ -73,7 +73,12 @@ def functions(text):
         if t == 'fn' and i + 1 < n:
             name = toks[i + 1]
             j = i
-            while j < n and toks[j] not in ('{', ';'):
+            nest = 0          # `;` inside `[T; N]` of the signature is not the end of a declaration
+            while j < n and not (nest == 0 and toks[j] in ('{', ';')):
+                if toks[j] in ('(', '['):
+                    nest += 1
+                elif toks[j] in (')', ']'):
+                    nest -= 1
                 j += 1
             if j < n and toks[j] == '{':
                 d = 0
